@@ -343,7 +343,7 @@ class ANF:
                 if v[0] in ("tuple", "list") and len(v[1]) == len(t.elts):
                     self.assign(e, v[1][k], env, cond, loops, stmt)
                 else:
-                    self.assign(e, ("proj", v, k), env, cond, loops, stmt)
+                    self.assign(e, read(v, (C(k),)), env, cond, loops, stmt)
             return
         if isinstance(t, ast.Subscript):
             base = self.eval(t.value, env, cond, loops)
@@ -712,6 +712,10 @@ def _const_cols(i, j):
 def read(b, idx):
     """x[idx] with read-through of functional updates: the value stored at the same index, or the array before a store
     to a provably different constant column"""
+    if len(idx) == 1 and is_const(idx[0]) and isinstance(idx[0][1], int) and not isinstance(idx[0][1], bool) and idx[0][1] >= 0 \
+            and isinstance(b, tuple) and b[0] == "call":
+        # f(...)[k] and `a, b = f(...)` denote the same component
+        return ("proj", b, idx[0][1])
     while isinstance(b, tuple) and b[0] == "upd":
         if key(b[2]) == key(idx):
             return b[3]
@@ -780,13 +784,22 @@ def _names_read(stmts):
 def _renumber(t):
     """number the bound variables of a comprehension 0.. so that equal comprehensions have equal terms"""
     m = {}
+    memo = {}
 
     def go(x):
         if isinstance(x, tuple):
+            r = memo.get(id(x))
+            if r is not None:
+                return r[1]
             if len(x) >= 2 and x[0] == "b" and isinstance(x[1], int):
                 m.setdefault(x[1], len(m))
-                return ("b", m[x[1]]) + tuple(x[2:])
-            return tuple(go(i) for i in x)
+                out = ("b", m[x[1]]) + tuple(x[2:])
+            else:
+                out = tuple(go(i) for i in x)
+                if all(a is b for a, b in zip(out, x)):
+                    out = x
+            memo[id(x)] = (x, out)
+            return out
         return x
     # generators first so that the numbering follows binding order
     gens = go(t[3])
@@ -893,13 +906,19 @@ def length_of(t):
     return ("call", ("x", "builtins.len"), (t,), ())
 
 def walk(t):
-    """all sub-terms (tuples headed by a tag)"""
-    if isinstance(t, tuple) and t and isinstance(t[0], str):
-        yield t
-    if isinstance(t, tuple):
-        for x in t:
-            if isinstance(x, tuple):
-                yield from walk(x)
+    """all distinct sub-terms (tuples headed by a tag); terms are DAGs with heavy sharing, every shared object is visited once"""
+    seen = set()
+    stack = [t]
+    while stack:
+        x = stack.pop()
+        if not isinstance(x, tuple) or id(x) in seen:
+            continue
+        seen.add(id(x))
+        if x and isinstance(x[0], str):
+            yield x
+        for y in x:
+            if isinstance(y, tuple):
+                stack.append(y)
 
 
 def contains(t, sub):
@@ -907,13 +926,20 @@ def contains(t, sub):
     return any(key(x) == k for x in walk(t))
 
 
-def subst(t, mapping):
+def subst(t, mapping, _memo=None):
     """mapping: {key(term): term}"""
+    memo = {} if _memo is None else _memo
     if isinstance(t, tuple):
-        r = mapping.get(key(t))
+        r = memo.get(id(t))
         if r is not None:
-            return r
-        return tuple(subst(x, mapping) if isinstance(x, tuple) else x for x in t)
+            return r[1]
+        hit = mapping.get(key(t)) if t and isinstance(t[0], str) else None
+        if hit is not None:
+            out = hit
+        else:
+            out = tuple(subst(x, mapping, memo) if isinstance(x, tuple) else x for x in t)
+        memo[id(t)] = (t, out)
+        return out
     return t
 
 
